@@ -23,10 +23,11 @@ class SimDisk:
         self.ops = 0
         self.deaths = 0
         self.timeout = 30
+        self.spurious_timeouts = 0
 
     def start(self):
         self.errf = open(os.devnull, 'wb')
-        self.p = subprocess.Popen([self.exe], stdin=subprocess.PIPE, stdout=subprocess.PIPE, stderr=subprocess.PIPE)
+        self.p = subprocess.Popen([self.exe], stdin=subprocess.PIPE, stdout=subprocess.PIPE, stderr=subprocess.PIPE, bufsize=0)
 
     def stop(self):
         if self.p:
@@ -37,25 +38,55 @@ class SimDisk:
                 self.p.kill()
             self.p = None
 
-    def call(self, line, payload=b''):
+    def _read_exact(self, n, timeout):
+        """Read exactly n bytes from the worker's (unbuffered) stdout, or None on EOF; raises TimeoutError."""
+        fd = self.p.stdout.fileno()
+        chunks = []
+        got = 0
+        while got < n:
+            ready, _, _ = select.select([fd], [], [], timeout)
+            if not ready:
+                raise TimeoutError()
+            b = os.read(fd, min(n - got, 1 << 20))
+            if not b:
+                return None
+            chunks.append(b)
+            got += len(b)
+        return b''.join(chunks)
+
+    def _kill(self):
+        try:
+            self.p.kill()
+            self.p.wait()
+        except Exception:
+            pass
+        self.p = None
+
+    def call(self, line, payload=b'', _retry=True):
         if self.p is None or self.p.poll() is not None:
             self.start()
         msg = line.encode('ascii') + b'\n' + payload
+        timeout = self.timeout if _retry else self.timeout * 4
         try:
             self.p.stdin.write(struct.pack('<I', len(msg)) + msg)
             self.p.stdin.flush()
-            # the library code may loop for ever on hostile input: bound every operation
-            ready, _, _ = select.select([self.p.stdout], [], [], self.timeout)
-            if not ready:
-                self.p.kill()
-                self.p.wait()
-                self.p = None
-                self.deaths += 1
-                raise WorkerDied('timeout', b'no answer within %d s: unbounded loop' % self.timeout)
-            hdr = self.p.stdout.read(4)
+            hdr = self._read_exact(4, timeout)
+            body = None
+            if hdr is not None:
+                n = struct.unpack('<I', hdr)[0]
+                body = self._read_exact(n, timeout)
         except BrokenPipeError:
-            hdr = b''
-        if len(hdr) < 4:
+            hdr = body = None
+        except TimeoutError:
+            # the library code may loop for ever on hostile input: every operation is bounded.  A time-out is
+            # believed only if it happens again in a fresh worker with four times the limit.
+            self._kill()
+            if _retry:
+                self.spurious_timeouts += 1
+                return self.call(line, payload, _retry=False)
+            self.deaths += 1
+            raise WorkerDied('timeout', b'no answer within %d s, twice: unbounded loop' % (self.timeout * 4))
+        if hdr is None or body is None:
             # the worker crashed (sanitizer report, abort, ...): collect what it said, restart lazily
             try:
                 self.p.stdin.close()
@@ -66,8 +97,6 @@ class SimDisk:
             self.p = None
             self.deaths += 1
             raise WorkerDied(code, err)
-        n = struct.unpack('<I', hdr)[0]
-        body = self.p.stdout.read(n)
         nl = body.index(b'\n')
         self.ops += 1
         return json.loads(body[:nl].decode('utf-8')), body[nl + 1:]
